@@ -25,7 +25,7 @@ from bingo.symbolic_regression.agraph.agraph import AGraph
 
 from harness import gen_stacks as G
 from harness.mpeval import mp_eval, UNDEF, Skip
-from harness.common import harness_main, VERIF, REPO
+from harness.common import harness_main, VERIF, REPO, watchdog, Timeout
 
 NEG_BEFORE_POW = re.compile(r"(^|[^\w.)])-\s*\d+(\.\d*)?(e[+-]?\d+)?\s*\*\*", re.I)
 
@@ -88,12 +88,15 @@ def roundtrip(ctx, rep):
             try:
                 with warnings.catch_warnings():
                     warnings.simplefilter("ignore")
-                    ag2 = AGraph(equation=text, use_simplification=use_simp)
-                    s1, c1 = stack_of(ag2)
+                    with watchdog(10.0):
+                        ag2 = AGraph(equation=text, use_simplification=use_simp)
+                        s1, c1 = stack_of(ag2)
                     if not use_simp:
                         raw_literals = len(c1)       # literal constants of the string (negative integers come back as constants)
-            except (MemoryError, OverflowError, RecursionError):
-                rep.count("roundtrip", "cas resource error (C03 F3b family)")
+            except (MemoryError, OverflowError, RecursionError, Timeout):
+                # huge integer powers are expanded into repeated multiplication by the simplifier (x^(3^15) -> 14 million factors):
+                # a resource question of the CAS (C03's watchdog), not of the string round trip
+                rep.count("roundtrip", "cas resource error / too slow")
                 continue
             except Exception as exc:
                 key = "C16:roundtrip-rejected"
@@ -117,10 +120,10 @@ def roundtrip(ctx, rep):
                 from harness.mpeval import int_overflow
                 if use_simp and (int_overflow(s0) or any(r[0] == G.INTEGER and abs(r[1]) >= 2 ** 53 for r in s1)):
                     key = "C16:F3b-int64-wrap"
-                elif NEG_BEFORE_POW.search(text) or (neg_ints and "**" in text):
-                    key = "C16:F11b-negative-literal-before-power"
                 elif use_simp and (c0 or raw_literals):
                     key = "C16:F11a-constants-rebound-after-simplification"
+                elif NEG_BEFORE_POW.search(text):
+                    key = "C16:F11b-negative-literal-before-power"       # repaired in /repo: reported if it ever returns
                 else:
                     key = "C16:roundtrip-differs"
                 rep.violate(f"equation rebuilt from its own sympy string evaluates to {b if b is UNDEF else mpmath.nstr(b, 12)} instead of "
@@ -223,9 +226,11 @@ def sharing_strings(ctx, rep):
             try:
                 with warnings.catch_warnings():
                     warnings.simplefilter("ignore")
-                    ag = AGraph(equation=text, use_simplification=use_simp)
-                    s1, c1 = stack_of(ag)
-            except (MemoryError, OverflowError, RecursionError):
+                    with watchdog(10.0):
+                        ag = AGraph(equation=text, use_simplification=use_simp)
+                        s1, c1 = stack_of(ag)
+            except (MemoryError, OverflowError, RecursionError, Timeout):
+                rep.count("sharing_strings", "cas resource error / too slow")
                 continue
             except Exception as exc:
                 rep.violate(f"a well-formed equation string is rejected: {type(exc).__name__}: {exc}", "C16:sharing-rejected",
